@@ -31,9 +31,14 @@ enum Fam {
     Mutations,
     Splices,
     Bombs,
+    /// every periodic family over the EXTENDED token alphabet at n = 400: screened in-process for
+    /// nesting deeper than any legitimate limit (iterative depth measure, result leaked, never dropped)
+    Deep,
+    /// the same family at ~1 MiB, result fully used: run only for screened candidates, one process each
+    DeepConfirm,
 }
 
-const FAMS: [(Fam, &str); 7] = [
+const FAMS: [(Fam, &str); 9] = [
     (Fam::Bytes, "bytes-after-header"),
     (Fam::Grid, "tag-length-fill-grid"),
     (Fam::WithLang, "with-language-inner-lengths"),
@@ -41,6 +46,8 @@ const FAMS: [(Fam, &str); 7] = [
     (Fam::Mutations, "corpus-mutations"),
     (Fam::Splices, "corpus-splices"),
     (Fam::Bombs, "structural-bombs"),
+    (Fam::Deep, "periodic-families-deep-nesting-screen"),
+    (Fam::DeepConfirm, "periodic-families-deep-nesting-confirm"),
 ];
 
 fn fam_by_name(s: &str) -> Fam {
@@ -59,6 +66,8 @@ enum Input {
     Message(Vec<u8>),
     /// stand-alone value decoder
     Value(u8, Vec<u8>),
+    /// parse, measure the nesting depth iteratively, never drop a deep result
+    Screen(Vec<u8>),
 }
 
 const GRID_LENS: [u32; 19] = [0, 1, 2, 3, 4, 5, 6, 7, 8, 9, 10, 11, 12, 13, 14, 15, 16, 0xffff, 0x1ffff];
@@ -126,6 +135,8 @@ impl Space {
                 }
             }
             Fam::Bombs => bombs().len() as u64,
+            Fam::Deep => 21 * 420 * 21,
+            Fam::DeepConfirm => 0,
         }
     }
 
@@ -268,6 +279,22 @@ impl Space {
                 let (name, b) = bombs().swap_remove(idx as usize);
                 (Input::Message(b), name)
             }
+            Fam::Deep | Fam::DeepConfirm => {
+                let t = vmc::explore::unrank(idx, &[21, 420, 21]);
+                let ps = tok_words_ext(0, 1);
+                let us = tok_words_ext(1, 2);
+                let fam_ = Periodic { p: ps[t[0] as usize].clone(), u: us[t[1] as usize].clone(), v: ps[t[2] as usize].clone(), s: vec![] };
+                let unit = fam_.bytes(1).len() - 8;
+                let n = if f == Fam::Deep { 400 } else { ((1usize << 20) / unit.max(1)).min(60_000) };
+                let mut b = fam_.bytes(n);
+                b.push(3);
+                let what = format!("periodic family {} at n={} ({} bytes)", fam_.name(), n, b.len());
+                if f == Fam::Deep {
+                    (Input::Screen(b), what)
+                } else {
+                    (Input::Message(b), what)
+                }
+            }
         }
     }
 }
@@ -378,8 +405,46 @@ fn use_result(header: &IppHeader, attrs: IppAttributes) -> u64 {
     sink
 }
 
+/// nesting depth of a value, measured with an explicit stack (no recursion)
+fn depth_of(v: &IppValue) -> usize {
+    let mut max = 0;
+    let mut stack: Vec<(&IppValue, usize)> = vec![(v, 0)];
+    while let Some((x, d)) = stack.pop() {
+        max = max.max(d);
+        match x {
+            IppValue::Array(items) => items.iter().for_each(|i| stack.push((i, d + 1))),
+            IppValue::Collection(m) => m.values().for_each(|i| stack.push((i, d + 1))),
+            _ => {}
+        }
+    }
+    max
+}
+
+const SCREEN_DEPTH: usize = 300;
+
 fn run_input(input: &Input) -> Result<&'static str, String> {
     match input {
+        Input::Screen(b) => {
+            let data = b.clone();
+            std::panic::catch_unwind(move || {
+                let p = ipp::parser::IppParser::new(ipp::reader::IppReader::new(std::io::Cursor::new(data)));
+                match p.parse_parts() {
+                    Ok((h, a, _)) => {
+                        let deep = a.groups().iter().flat_map(|g| g.attributes().values()).map(|x| depth_of(x.value())).max().unwrap_or(0);
+                        if deep > SCREEN_DEPTH {
+                            // dropping it could overflow the stack right here: leak it, the confirm run decides
+                            std::mem::forget(a);
+                            "deep"
+                        } else {
+                            let _ = use_result(&h, a);
+                            "ok"
+                        }
+                    }
+                    Err(_) => "err",
+                }
+            })
+            .map_err(|p| format!("IppParser: {}", panic_text(p)))
+        }
         Input::Value(tag, body) => {
             let r = std::panic::catch_unwind(|| match IppValue::parse(*tag, bytes::Bytes::from(body.clone())) {
                 Ok(v) => {
@@ -438,6 +503,7 @@ fn input_json(i: &Input) -> Json {
         Input::Message(b) => json!({"message_len": b.len(), "head": hex(&b[..64]), "fnv": format!("{:016x}", fnv(b))}),
         Input::Value(t, b) if b.len() <= 4096 => json!({"value_tag": t, "body": hex(b)}),
         Input::Value(t, b) => json!({"value_tag": t, "body_len": b.len()}),
+        Input::Screen(b) => json!({"message_len": b.len(), "head": hex(&b[..b.len().min(96)])}),
     }
 }
 
@@ -484,6 +550,10 @@ fn worker(ctx: &Ctx) -> ! {
                             st.transitions += b.len() as u64;
                         }
                         match run_input(&input) {
+                            Ok("deep") => {
+                                st.outcome("deep");
+                                st.violate(format!("deep-candidate:{}", idx), format!("{}: parsed to a value nested deeper than {} levels", what, SCREEN_DEPTH), json!({"family": fam_name(fam), "index": idx}));
+                            }
                             Ok(o) => {
                                 st.outcome(o);
                                 if o == "ok" {
@@ -696,7 +766,7 @@ pub fn run(ctx: &Ctx) -> ! {
     let mut rep = Report::new(
         ctx,
         "exploration",
-        "(a) every byte string of <= 2 (3) bytes after a valid header; (b) value tag 0x00-0xff x value length {0..16, 0xffff short body, 0xffff full body} x fill {00, ff, counting} in three contexts (named attribute, additional value, collection member) and through the stand-alone IppValue::parse; (c) every (language-length, text-length) pair of {0..6, 0xfffe, 0xffff}^2 against bodies of 0..8 octets for both with-language tags; (d) every sequence of <= 5 (6) tokens of the 16-token wire alphabet; (e) grammar-aware mutations of every corpus message (every length field <- 0 / -1 / +1 / 0xffff / 0x8000, truncation at every offset, deletion and duplication of every token, every tag byte <- every byte), thorough: + every token-boundary splice of the short corpus messages; (f) structural bombs doubling up to 1 MiB (nesting with/without member names, closed/unclosed/truncated, set width, attribute count, group count, member count, maximal values). Every input through IppParser and AsyncIppParser; every Ok result is displayed, re-encoded, traversed, cloned and dropped. All in worker PROCESSES (2 MiB thread stack): panic (caught), death by signal and stalled heartbeat are violations, confirmed by re-running the single case alone. distinct = case index per family; non-trivial = the parser returned Ok and the result was exercised",
+        "(a) every byte string of <= 2 (3) bytes after a valid header; (b) value tag 0x00-0xff x value length {0..16, 0xffff short body, 0xffff full body} x fill {00, ff, counting} in three contexts (named attribute, additional value, collection member) and through the stand-alone IppValue::parse; (c) every (language-length, text-length) pair of {0..6, 0xfffe, 0xffff}^2 against bodies of 0..8 octets for both with-language tags; (d) every sequence of <= 5 (6) tokens of the 16-token wire alphabet; (e) grammar-aware mutations of every corpus message (every length field <- 0 / -1 / +1 / 0xffff / 0x8000, truncation at every offset, deletion and duplication of every token, every tag byte <- every byte), thorough: + every token-boundary splice of the short corpus messages; (f) structural bombs doubling up to 1 MiB (nesting with/without member names, closed/unclosed/truncated, set width, attribute count, group count, member count, maximal values); (g) EVERY periodic family p.u^n.v^n over the EXTENDED 20-token alphabet (named and unnamed variant of every token class; |p| <= 1, |u| <= 2, |v| <= 1: 185 220 families) at n = 400, screened for results nested deeper than 300 levels (iterative measure), every candidate re-run at ~1 MiB in a process of its own. Every input through IppParser and AsyncIppParser; every Ok result is displayed, re-encoded, traversed, cloned and dropped. All in worker PROCESSES (2 MiB thread stack): panic (caught), death by signal and stalled heartbeat are violations, confirmed by re-running the single case alone. distinct = case index per family; non-trivial = the parser returned Ok and the result was exercised",
     );
     rep.assume("worker threads use a 2 MiB stack (Rust's default for spawned threads): deeper recursion than that is an abort a user would see");
     let space = Space::new(ctx.tier);
@@ -783,6 +853,36 @@ pub fn run(ctx: &Ctx) -> ! {
                 match wait_worker(c, stall) {
                     WorkerEnd::Report(j) => absorb_report(&mut st, &j),
                     WorkerEnd::Died { at, stalled, .. } => narrow(ctx, fam, k, offset, at, total, stalled, &mut st),
+                }
+            }
+            if fam == Fam::Deep {
+                // candidates are not verdicts: confirm each at ~1 MiB in a process of its own
+                let cands: Vec<u64> = st.violations.iter().filter(|v| v.class.starts_with("deep-candidate:")).filter_map(|v| v.case["index"].as_u64()).collect();
+                st.violations.retain(|v| !v.class.starts_with("deep-candidate:"));
+                st.counters.remove("violations_total");
+                st.count("deep_candidates", cands.len() as u64);
+                for idx in cands.into_iter().take(32) {
+                    let c = spawn_worker(ctx, Fam::DeepConfirm, idx, idx + 1, 1, 0, true, "deepconfirm");
+                    match wait_worker(c, Duration::from_secs(40)) {
+                        WorkerEnd::Report(j) => {
+                            let mut tmp = Stats::new();
+                            absorb_report(&mut tmp, &j);
+                            st.count("deep_but_no_abort_at_1MiB", 1);
+                            for v in tmp.violations {
+                                st.violate(v.class, v.detail, v.case);
+                            }
+                        }
+                        WorkerEnd::Died { signal, code, stalled, .. } => {
+                            let (input, what) = space.case(Fam::DeepConfirm, idx);
+                            let how = if stalled { "hang".to_string() } else if let Some(sg) = signal { format!("killed by signal {}", sg) } else { format!("exit status {:?}", code) };
+                            st.outcome(if stalled { "hang" } else { "abort" });
+                            st.violate(
+                                if stalled { "hang:unbounded-nesting".to_string() } else { "abort:unbounded-nesting".to_string() },
+                                format!("{}: {} when the parsed result is displayed / cloned / dropped ({} KiB worker stack)", what, how, WORKER_STACK / 1024),
+                                json!({"family": fam_name(Fam::DeepConfirm), "index": idx, "input": input_json(&input)}),
+                            );
+                        }
+                    }
                 }
             }
             if st.evaluations < total && st.violations.is_empty() {
